@@ -31,6 +31,10 @@ def run(ctx: Context) -> None:
     ctx.rule(reward)
     ctx.rule(learn)
     ctx.rule(policy)
+    # "its choices are a deterministic function of its seed": every override of _set_random_state between the agent and BaseSeedable hands the
+    # seed on unmodified (seed 0 included) before anything is drawn (shared with C01-R3)
+    from . import c01
+    ctx.rule(c01.r3_super_first)
 
 
 def reward(ctx: Context) -> None:
